@@ -139,7 +139,7 @@ impl Run {
             wdiv = 1u128 << wlog;
             let max_w = (u64::MAX as u128) / wdiv;
             cfgv["maxW"] = json!(if max_w < (1 << 30) { max_w as i64 } else { -1 });
-            let members: Vec<Member> = cfg["members"].as_array().unwrap().iter().map(|m| Member { addr: w.addr(&s(m, "a")).to_string(), weight: ((n(m, "w") as u128) * wdiv).min(u64::MAX as u128) as u64 }).collect();
+            let members: Vec<Member> = cfg["members"].as_array().unwrap().iter().map(|m| Member { addr: if s(m, "a") == "invalid" { "not-an-address".to_string() } else { w.addr(&s(m, "a")).to_string() }, weight: ((n(m, "w") as u128) * wdiv).min(u64::MAX as u128) as u64 }).collect();
             let msg = cw4_group::msg::InstantiateMsg { admin, members };
             let code = w.app.store_code(group_code());
             r = call(&mut w, |w| {
@@ -427,6 +427,10 @@ pub fn rand_cfg(rng: &mut Rng) -> Value {
         if rng.chance(1, 12) && !members.is_empty() {
             let d = members[0].clone();
             members.push(d);
+        }
+        if rng.chance(1, 15) {
+            // an entry whose address does not validate: the whole instantiate must be refused
+            members.push(json!({"a":"invalid","w":rng.range(1, top)}));
         }
         json!({"flavour":"group","admin":admin,"members":members,"wscale":wscale})
     }
